@@ -16,7 +16,7 @@ class ExactNode(Node):
         """
         Gets the current time
         """
-        return Decimal(self.simulation.current_time)
+        return Decimal(str(self.simulation.current_time))
 
     def create_starting_servers(self):
         """
